@@ -250,6 +250,22 @@ def _classes(case):
     return out
 
 
+def _sweep_lines(rnd):
+    """Eastings (100 000 .. 900 000 m) along a seeded northing and northings (latitude -60 .. -5) along a seeded easting, one line
+    of each per direction; zone 46..59 and height (absent / value) fixed per line by the seed."""
+    out = []
+    for d in ("94to2020", "2020to94"):
+        zone = rnd.randrange(46, 60)
+        h = rnd.choice([None, rnd.uniform(-100.0, 3000.0)])
+        n0 = rnd.uniform(3.4e6, 9.4e6)
+        e0 = rnd.uniform(200000.0, 800000.0)
+        base = {"dir": d, "zone": zone, "h": h, "num": "float"}
+        # (eastings stay where the latitude band of the statement maps to: at N = n0 every E in 100..900 km is fine)
+        out.append((1.0, lambda f, b=base, n=n0: dict(b, east=round(100000.0 + 800000.0 * f, 4), north=round(n, 4))))
+        out.append((1.0, lambda f, b=base, e=e0: dict(b, east=round(e, 4), north=round(3.4e6 + 6.0e6 * f, 4))))
+    return out
+
+
 G_ALL = [["dir"], ["zone", "east", "north"], ["h"]]
 
 SUBCHECKS = [
@@ -260,6 +276,9 @@ SUBCHECKS = [
              quick=2000, thorough=150000, shards_quick=4, shards_thorough=16, seq_groups=G_ALL,
              fresh=(8, 64, 3), rule="each direction == stepwise composition with the library's own steps (exact), natural zone, no-height rule; "
                   "and == independent reference pipeline (exact TM, closed-form Cartesian, reference Helmert) within 0.03 / 0.2 mm"),
+    SubCheck("definition_axis_sweeps", check_definition, enumerate=S.sweeps(1313, _sweep_lines, 6000, 120000), nontrivial=_nt, classes=_classes,
+             shards_quick=12, shards_thorough=16,
+             rule="stratified sweeps: eastings along a northing and northings along an easting (6 000 / 120 000 lattice points per line, 4 lines, seeded)"),
     SubCheck("equals_definition_whole_utm", check_definition_wide, strategy=utm_south_cases(), nontrivial=_nt, classes=_classes,
              quick=1500, thorough=100000, shards_quick=3, shards_thorough=12,
              rule="the same on the whole southern UTM domain of C02 (zones 1..60, |lon - CM| <= 30 deg)"),
